@@ -33,6 +33,8 @@ pub const FAMILIES: &[&str] = &[
     "dx/CoverageTable", "dx/ClassDef", "dx/SingleSubst", "dx/MultipleSubstFormat1", "dx/AlternateSubstFormat1",
     "dx/LigatureSubstFormat1", "dx/Paint", "dx/ScriptList", "dx/LookupFlagLookup", "dx/PositionLookupList",
     "dx/SubstitutionLookupList",
+    // must-reject-or-round-trip probes (reject.rs): the unmutated base values compile
+    "mr/PairPos", "mr/SinglePos", "mr/Name", "mr/ClassDef", "mr/Meta", "mr/Fvar", "mr/SubstitutionLookupList", "mr/Maxp", "mr/SimpleGlyph",
 ];
 
 /// source of pairwise different values
